@@ -26,6 +26,7 @@ import (
 	"context"
 	"fmt"
 	"os"
+	"path/filepath"
 	"reflect"
 	"sort"
 	"strconv"
@@ -62,7 +63,8 @@ type Branch struct {
 }
 
 type Stmt struct {
-	K        byte // D A X P I W E B K Q R F Y
+	K        byte // D A X P I W E Z B K Q R F Y
+	Form     byte // 'Z' (statements executed indirectly, in the current block): 's' SOURCE file, 'e' EXECUTE 'text', 'p' EXECUTE prepared
 	Decl     bool // 'E': WHILE VAR @x IN …
 	Rows     int  // 'E': the cursor yields the rows 0 … Rows-1
 	Cur      int  // 'E': number of the cursor (one per statement)
@@ -143,6 +145,9 @@ func (s *Stmt) enc(b *strings.Builder) {
 	case 'W':
 		b.WriteString(" W")
 		s.E.enc(b)
+		encBlock(b, s.Body)
+	case 'Z':
+		b.WriteString(" Z")
 		encBlock(b, s.Body)
 	case 'E':
 		d := 0
@@ -294,6 +299,24 @@ func (s *Stmt) sql(b *strings.Builder) {
 		b.WriteString(" DO ")
 		sqlBlock(b, s.Body)
 		b.WriteString("END WHILE;")
+	case 'Z': // one statement; what it runs is in a file, in a string, or prepared in front of the program
+		var ib strings.Builder
+		sqlBlock(&ib, s.Body)
+		render.seq++
+		switch s.Form {
+		case 's':
+			f := filepath.Join(render.dir, fmt.Sprintf("z%d.sql", render.seq))
+			if err := os.WriteFile(f, []byte(ib.String()), 0o644); err != nil {
+				panic(err)
+			}
+			b.WriteString("SOURCE " + option.QuoteString(f) + ";")
+		case 'e':
+			b.WriteString("EXECUTE " + option.QuoteString(ib.String()) + ";")
+		default:
+			name := fmt.Sprintf("pq%d", render.seq)
+			render.prep = append(render.prep, "PREPARE "+name+" FROM "+option.QuoteString(ib.String())+";")
+			b.WriteString("EXECUTE " + name + ";")
+		}
 	case 'E': // three statements: the cursor is declared and opened in the enclosing block, right in front of the loop
 		fmt.Fprintf(b, "DECLARE cq%d CURSOR FOR SELECT c1 FROM tq WHERE c1 < %d ORDER BY c1; OPEN cq%d; WHILE ", s.Cur, s.Rows, s.Cur)
 		if s.Decl {
@@ -324,10 +347,41 @@ func (s *Stmt) sql(b *strings.Builder) {
 const tablePrelude = "DECLARE tq VIEW (c1); INSERT INTO tq VALUES (0), (1), (2), (3); "
 const preludeStmts = 2
 
+// render: where SOURCE files go, the PREPARE statements the text rendered last needs in front of it, a counter
+// that makes file and statement names unique over the whole run (prepared statements belong to the session)
+var render struct {
+	dir  string
+	seq  int
+	prep []string
+}
+
+// sqlProgram renders the statements; the PREPARE statements they need are left in render.prep
 func sqlProgram(ss []*Stmt) string {
+	render.prep = nil
 	var b strings.Builder
 	sqlBlock(&b, ss)
 	return b.String()
+}
+
+// preps: the PREPARE statements for the text rendered last (text, number of statements)
+func preps() (string, int) {
+	if len(render.prep) == 0 {
+		return "", 0
+	}
+	return strings.Join(render.prep, " ") + " ", len(render.prep)
+}
+
+// flat lists the statements of a block with the indirectly executed ones in place (same block)
+func flat(ss []*Stmt) []*Stmt {
+	var out []*Stmt
+	for _, s := range ss {
+		if s.K == 'Z' {
+			out = append(out, flat(s.Body)...)
+		} else {
+			out = append(out, s)
+		}
+	}
+	return out
 }
 
 // ---------------------------------------------------------------- generator
@@ -341,6 +395,7 @@ type genCtx struct {
 	inFunc    bool
 	noDisp    bool           // law programs: no DISPOSE
 	wild      bool           // BREAK / CONTINUE / EXIT / RETURN anywhere, also where the grammar forbids them
+	noRet     bool           // inside SOURCE / EXECUTE text: parsed as a procedure of its own, RETURN is no statement there
 	visible   map[int]bool   // pool variables probably visible here
 	declared  map[int]bool   // pool variables declared in the block being generated
 	fns       map[int][2]int // functions probably visible: (required, total) parameters beyond the budget parameter
@@ -510,8 +565,19 @@ func (p *pgen) stmt(c genCtx) []*Stmt {
 		}
 		p.note('X', c)
 		return []*Stmt{{K: 'X', X: x}}
-	case r < 50:
+	case r < 45:
 		break // PRINT below
+	case r < 50:
+		// statements that reach the current block indirectly: SOURCE file / EXECUTE 'text' / EXECUTE prepared
+		if p.budget <= 0 {
+			break
+		}
+		cc := c // the SAME block: declarations made there are declarations of this block
+		cc.inLoop, cc.noRet, cc.wild = false, true, false
+		st := &Stmt{K: 'Z', Form: "sep"[p.g.Intn(3)]}
+		st.Body = p.block(cc, 1, 3)
+		p.note('Z', c)
+		return []*Stmt{st}
 	case r < 84 && deep:
 		if p.g.Intn(2) == 0 {
 			p.note('A', c)
@@ -577,7 +643,7 @@ func (p *pgen) stmt(c genCtx) []*Stmt {
 			req = p.g.Intn(np + 1)
 		}
 		cc := c.child()
-		cc.inFunc, cc.inLoop = true, false
+		cc.inFunc, cc.inLoop, cc.noRet = true, false, false
 		used := map[int]bool{}
 		for i := 0; i < np; i++ {
 			x := p.g.Intn(poolVars)
@@ -645,11 +711,11 @@ func (p *pgen) stmt(c genCtx) []*Stmt {
 			p.note('R', c)
 			return []*Stmt{{K: 'R', E: p.expr(c, 0, true), Stray: true}}
 		}
-		if c.inFunc {
+		if c.inFunc && !c.noRet {
 			p.note('R', c)
 			return []*Stmt{{K: 'R', E: p.expr(c, 0, true)}}
 		}
-		if c.depth > 0 && p.g.Intn(2) == 0 {
+		if (c.depth > 0 || c.noRet) && p.g.Intn(2) == 0 {
 			p.note('Q', c)
 			return []*Stmt{{K: 'Q'}}
 		}
@@ -700,6 +766,8 @@ func costBlock(ss []*Stmt, cc int64) int64 {
 			t = sat(t + 4*sat(costExpr(s.E, cc)+costBlock(s.Body, cc)))
 		case 'E':
 			t = sat(t + 3 + int64(s.Rows)*sat(1+costBlock(s.Body, cc)))
+		case 'Z':
+			t = sat(t + costBlock(s.Body, cc))
 		case 'F':
 			for _, pr := range s.Params {
 				t = sat(t + costExpr(pr.Dflt, cc))
@@ -855,7 +923,7 @@ func scopeState(rs *query.ReferenceScope) (string, string) {
 var flowName = map[query.StatementFlow]string{query.Terminate: "N", query.Exit: "X", query.Break: "B", query.Continue: "K"}
 
 // exec runs program text on pr (which keeps its scope between calls) and reports what can be observed
-func exec(pr *hc.Proc, sql string) result { return execPatched(pr, sql, nil) }
+func exec(pr *hc.Proc, sql string) result { return execPatched(pr, sql, nil, 0) }
 
 // patch puts the stray BREAK / CONTINUE / EXIT / RETURN statements of `my` into the parsed tree, which has the
 // same shape (every statement of `my` was written as exactly one statement)
@@ -952,11 +1020,11 @@ func returnValOf(p *query.Processor) string {
 	return canonVal(v.(value.Primary))
 }
 
-func execPatched(pr *hc.Proc, sql string, my []*Stmt) result {
+func execPatched(pr *hc.Proc, sql string, my []*Stmt, skip int) result {
 	pr.Stdout.Reset()
 	var r result
 	stmts, _, err := parser.Parse(sql, "", false, pr.P.Tx.Flags.AnsiQuotes)
-	if err != nil || (my != nil && (len(stmts) < preludeStmts || !patch(my, stmts[preludeStmts:]))) {
+	if err != nil || (my != nil && (len(stmts) < skip || !patch(my, stmts[skip:]))) {
 		r.flow, r.code, r.fatal = "SYNTAX", -2, true
 		return r
 	}
@@ -1056,6 +1124,32 @@ func report(o *hc.Out, name string, c lawCase) {
 	}
 }
 
+// indirect makes `inner` reach the enclosing block the indirect way: through SOURCE of a file, EXECUTE of a string,
+// or PREPARE + EXECUTE (two times out of three); the block that contains it then declares nothing by itself
+func indirect(g *hc.Gen, o *hc.Out, inner string, id *int) string {
+	*id++
+	switch g.Intn(6) {
+	case 0, 1:
+		return inner
+	case 2:
+		f := filepath.Join(render.dir, fmt.Sprintf("law%d-%d.sql", render.seq, *id))
+		render.seq++
+		if err := os.WriteFile(f, []byte(inner), 0o644); err != nil {
+			panic(err)
+		}
+		o.Count("law_indirect:source")
+		return "SOURCE " + option.QuoteString(f) + ";"
+	case 3:
+		o.Count("law_indirect:execute")
+		return "EXECUTE " + option.QuoteString(inner) + ";"
+	case 4:
+		o.Count("law_indirect:execute_nested")
+		return "EXECUTE " + option.QuoteString("EXECUTE "+option.QuoteString(inner)+";") + ";"
+	}
+	o.Count("law_indirect:prepared")
+	return fmt.Sprintf("PREPARE pz%d FROM %s; EXECUTE pz%d; DISPOSE PREPARE pz%d;", *id, option.QuoteString(inner), *id, *id)
+}
+
 type lawCase struct {
 	Law  string   `json:"law"`
 	SQL  []string `json:"sql"`
@@ -1088,7 +1182,7 @@ func lawsObjects(g *hc.Gen, o *hc.Out) {
 	// 1. an object declared inside a block does not survive the block
 	{
 		pr := newProc()
-		body, kinds := wrap(g, pb.decl, depth, &id)
+		body, kinds := wrap(g, indirect(g, o, pb.decl, &id), depth, &id)
 		r1 := exec(pr, "VAR @q; "+body)
 		r2 := exec(pr, pb.use)
 		o.Count("law:local_" + pb.name)
@@ -1117,7 +1211,7 @@ func lawsObjects(g *hc.Gen, o *hc.Out) {
 	sh := shadows[g.Intn(len(shadows))]
 	{
 		pr := newProc()
-		body, kinds := wrap(g, sh.inner, depth, &id)
+		body, kinds := wrap(g, indirect(g, o, sh.inner, &id), depth, &id)
 		o.Count("law_wrap_innermost:" + kinds[0])
 		r0 := exec(pr, sh.outer)
 		r1 := exec(pr, body)
@@ -1136,7 +1230,7 @@ func lawsObjects(g *hc.Gen, o *hc.Out) {
 	{
 		pr := newProc()
 		v := int64(g.Intn(1000))
-		body, kinds := wrap(g, fmt.Sprintf("@zz := %d;", v), depth, &id)
+		body, kinds := wrap(g, indirect(g, o, fmt.Sprintf("@zz := %d;", v), &id), depth, &id)
 		o.Count("law_wrap_innermost:" + kinds[0])
 		sql := "VAR @zz := -1; " + body + " PRINT @zz;"
 		r := exec(pr, sql)
@@ -1181,9 +1275,14 @@ func lawShadowRandom(g *hc.Gen, o *hc.Out, pr *hc.Proc) {
 		return
 	}
 	pr.P = query.NewProcessor(pr.P.Tx)
-	r0 := exec(pr, tablePrelude+sqlProgram(pre))
+	preSQL := sqlProgram(pre)
+	pp1, _ := preps()
+	preSQL = tablePrelude + pp1 + preSQL
+	r0 := exec(pr, preSQL)
 	before := globalVar(pr, x)
-	blk := "IF TRUE THEN VAR " + vname(x) + " := 77; " + sqlProgram(body) + "END IF;"
+	bodySQL := sqlProgram(body)
+	pp2, _ := preps()
+	blk := pp2 + "IF TRUE THEN VAR " + vname(x) + " := 77; " + bodySQL + "END IF;"
 	r1 := exec(pr, blk)
 	after := globalVar(pr, x)
 	o.Count("law:shadow_random")
@@ -1191,7 +1290,7 @@ func lawShadowRandom(g *hc.Gen, o *hc.Out, pr *hc.Proc) {
 		o.Count("law:shadow_random_outer_declared")
 	}
 	if r0.fatal || r1.fatal {
-		report(o, "generator_syntax", lawCase{"generator_syntax", []string{sqlProgram(pre), blk}, r0.flow + " " + r1.flow, "parses"})
+		report(o, "generator_syntax", lawCase{"generator_syntax", []string{preSQL, blk}, r0.flow + " " + r1.flow, "parses"})
 		return
 	}
 	if r1.code == query.ErrorContextDone || r1.code == query.ErrorContextCanceled || r0.code == query.ErrorContextDone {
@@ -1199,7 +1298,7 @@ func lawShadowRandom(g *hc.Gen, o *hc.Out, pr *hc.Proc) {
 		return
 	}
 	if before != after {
-		report(o, "shadow_preserves_outer", lawCase{"shadow_preserves_outer", []string{sqlProgram(pre), blk}, after, before})
+		report(o, "shadow_preserves_outer", lawCase{"shadow_preserves_outer", []string{preSQL, blk}, after, before})
 	}
 }
 
@@ -1212,7 +1311,7 @@ func lawLateDecl(g *hc.Gen, o *hc.Out, pr *hc.Proc, prog []*Stmt, base result) {
 	var sites []site
 	var walk func(ss []*Stmt)
 	walk = func(ss []*Stmt) {
-		for _, s := range ss {
+		for _, s := range flat(ss) {
 			for i := range s.Branches {
 				sites = append(sites, site{&s.Branches[i].Body, nil})
 				walk(s.Branches[i].Body)
@@ -1237,7 +1336,7 @@ func lawLateDecl(g *hc.Gen, o *hc.Out, pr *hc.Proc, prog []*Stmt, base result) {
 	}
 	st := sites[g.Intn(len(sites))]
 	declaredHere := map[int]bool{}
-	for _, s := range *st.list {
+	for _, s := range flat(*st.list) {
 		if s.K == 'D' {
 			declaredHere[s.X] = true
 		}
@@ -1258,12 +1357,13 @@ func lawLateDecl(g *hc.Gen, o *hc.Out, pr *hc.Proc, prog []*Stmt, base result) {
 	old := *st.list
 	*st.list = append(append([]*Stmt{}, old...), &Stmt{K: 'D', X: x, E: lit(99)})
 	sql := sqlProgram(prog)
+	pp, _ := preps()
 	*st.list = old
 	pr.P = query.NewProcessor(pr.P.Tx)
-	r := exec(pr, tablePrelude+sql)
+	r := exec(pr, tablePrelude+pp+sql)
 	o.Count("law:late_decl")
 	if r.line() != base.line() {
-		report(o, "late_shadow_invisible", lawCase{"late_shadow_invisible", []string{sqlProgram(prog), sql}, r.line(), base.line()})
+		report(o, "late_shadow_invisible", lawCase{"late_shadow_invisible", []string{"(the program without the appended declaration)", tablePrelude + pp + sql}, r.line(), base.line()})
 	}
 }
 
@@ -1404,6 +1504,7 @@ func staticShadow(prog []*Stmt) bool {
 		for k := range outer {
 			here[k] = true
 		}
+		ss = flat(ss)
 		for _, s := range ss {
 			if s.K == 'D' && s.X < poolVars {
 				here[s.X] = true
@@ -1415,6 +1516,7 @@ func staticShadow(prog []*Stmt) bool {
 				lists = append(lists, br.Body)
 			}
 			for _, l := range lists {
+				l = flat(l)
 				for _, t := range l {
 					if t.K == 'D' && t.X < poolVars && here[t.X] {
 						return true
@@ -1437,6 +1539,14 @@ func runC15(seed int64, n int, dir string, _ []string) {
 	o := hc.NewOut(dir)
 	defer o.Close()
 
+	base := os.Getenv("VERIF_SCRATCH")
+	d, err := os.MkdirTemp(base, "c15-source-")
+	if err != nil {
+		panic(err)
+	}
+	render.dir = d
+	defer os.RemoveAll(d)
+
 	shared := newProc()
 	defer shared.Close()
 	lawConcurrent(g, o)
@@ -1444,6 +1554,8 @@ func runC15(seed int64, n int, dir string, _ []string) {
 		wild := i%5 == 4
 		pg, prog := genProgram(g, false, wild)
 		sql := sqlProgram(prog)
+		pp, npp := preps()
+		full := tablePrelude + pp + sql
 		if debug {
 			fmt.Fprintf(os.Stderr, "%d cost=%d %s\n", i, pg.cost(prog), sql)
 		}
@@ -1452,18 +1564,18 @@ func runC15(seed int64, n int, dir string, _ []string) {
 		shared.P = query.NewProcessor(shared.P.Tx)
 		var r result
 		if wild {
-			r = execPatched(shared, tablePrelude+sql, prog)
+			r = execPatched(shared, full, prog, preludeStmts+npp)
 			o.Count("wild_programs")
 		} else {
-			r = exec(shared, tablePrelude+sql)
+			r = exec(shared, full)
 		}
 		if r.fatal {
-			report(o, "generator_syntax", lawCase{"generator_syntax", []string{sql}, r.flow, "parses"})
+			report(o, "generator_syntax", lawCase{"generator_syntax", []string{full}, r.flow, "parses"})
 			continue
 		}
 		// what the history left in the pool of blocks
-		poolProbe(o, shared, tablePrelude+sql)
-		lawPool(o, shared.P.ReferenceScope, 48, tablePrelude+sql)
+		poolProbe(o, shared, full)
+		lawPool(o, shared.P.ReferenceScope, 48, full)
 		if r.code == query.ErrorContextDone || r.code == query.ErrorContextCanceled {
 			o.Count("skipped_timeout")
 			continue
